@@ -25,19 +25,21 @@ type loop struct {
 }
 
 type World struct {
-	c       *hx.Ctx
-	prod    *bm.Env
-	full    *bm.Env
-	lp      *loop
-	opt     bm.Options
-	from    int // write index where the last delivery began
-	dead    bool
-	hdrDel  map[uint64]bool // ghost: delivered so far
-	datDel  map[uint64]bool
-	junkDel map[uint64]bool // ghost: heights for which junk data (unauthenticated P2P data not matching the header) was delivered
-	lastH   uint64
-	execN   int
-	cause   string // after a crash: between which two durable writes it fell ("" = no crash so far)
+	c            *hx.Ctx
+	prod         *bm.Env
+	full         *bm.Env
+	lp           *loop
+	opt          bm.Options
+	from         int // write index where the last delivery began
+	dead         bool
+	hdrDel       map[uint64]bool // ghost: delivered so far
+	datDel       map[uint64]bool
+	junkReplaced map[uint64]bool // ghost: a junk item for this height was delivered while the genuine data was cached there
+	junkDel      map[uint64]bool // ghost: heights for which junk data (unauthenticated P2P data not matching the header) was delivered
+	lastH        uint64
+	execN        int
+	stale        bool   // the node was restarted after a crash on the cache files of an earlier clean stop
+	cause        string // after a crash: between which two durable writes it fell ("" = no crash so far)
 }
 
 // rep reports a violation; after a crash every finding is attributed to the crash point.
@@ -196,6 +198,11 @@ func (w *World) startFull(img map[string][]byte, root string) string {
 	}
 	w.dead = false
 	w.startLoop()
+	// the loop applies what the loaded caches already allow before it waits for events: let it finish
+	if !w.settle() {
+		w.dead = true
+		w.rep(w.classifyDeath(), "SyncLoop returned right after it was started")
+	}
 	return "start " + w.observe()
 }
 
@@ -237,8 +244,8 @@ func Run(c *hx.Ctx) {
 				continue
 			}
 			w.prod = p
-			w.hdrDel, w.datDel, w.junkDel = map[uint64]bool{}, map[uint64]bool{}, map[uint64]bool{}
-			w.cause = ""
+			w.hdrDel, w.datDel, w.junkDel, w.junkReplaced = map[uint64]bool{}, map[uint64]bool{}, map[uint64]bool{}, map[uint64]bool{}
+			w.cause, w.stale = "", false
 			c.Emit("%s", w.startFull(nil, ""))
 			w.lastH = w.full.Height()
 		case "produce":
@@ -268,10 +275,10 @@ func Run(c *hx.Ctx) {
 			w.from = w.full.DS.NumWrites()
 			if !w.dead {
 				if o.Verb == "hdr" {
-					w.full.M.VerifHeaderInCh() <- block.NewHeaderEvent{Header: sh, DAHeight: 0}
+					w.full.M.VerifHeaderInCh() <- block.NewHeaderEvent{Header: sh, DAHeight: uint64(o.Int("da"))}
 					w.hdrDel[k] = true
 				} else {
-					w.full.M.VerifDataInCh() <- block.NewDataEvent{Data: d, DAHeight: 0}
+					w.full.M.VerifDataInCh() <- block.NewDataEvent{Data: d, DAHeight: uint64(o.Int("da"))}
 					if len(d.Txs) > 0 {
 						w.datDel[k] = true
 					}
@@ -305,7 +312,10 @@ func Run(c *hx.Ctx) {
 				for _, tx := range o.List("txs") {
 					junk.Txs = append(junk.Txs, types.Tx(tx))
 				}
-				w.full.M.VerifDataInCh() <- block.NewDataEvent{Data: junk, DAHeight: 0}
+				if w.datDel[k] && hasHeight(w.full.M.DataCache().VerifItemHeights(), k) && k > w.full.Height() {
+					w.junkReplaced[k] = true
+				}
+				w.full.M.VerifDataInCh() <- block.NewDataEvent{Data: junk, DAHeight: uint64(o.Int("da"))}
 				w.junkDel[k] = true
 				w.waitDataTaken()
 				if !w.settle() {
@@ -340,7 +350,12 @@ func Run(c *hx.Ctx) {
 					w.cause = "crash-between-" + last + "-and-" + kindOf(bm.DescribeWS(w.full.DS.Log[keep]))
 				}
 				// the in-memory caches are lost: what was delivered but not applied must be delivered again
-				w.hdrDel, w.datDel = map[uint64]bool{}, map[uint64]bool{}
+				w.hdrDel, w.datDel, w.junkDel, w.junkReplaced = map[uint64]bool{}, map[uint64]bool{}, map[uint64]bool{}, map[uint64]bool{}
+				if o.Bool("stale") {
+					// ... but the cache FILES of the last clean stop (an older generation of the caches) are still there
+					root = w.full.Root
+					w.stale = true
+				}
 			}
 			c.Hit(fmt.Sprintf("%s-keep-%d-of-%d", o.Verb, keep-w.from, n-w.from))
 			img := w.full.DS.ImageAt(keep)
@@ -405,22 +420,51 @@ func (w *World) classifyDeath() string {
 	return "C02/loop-terminated"
 }
 
+func hasHeight(l []uint64, k uint64) bool {
+	for _, x := range l {
+		if x == k {
+			return true
+		}
+	}
+	return false
+}
+
+// classifyStall: both parts of block h+1 were delivered and the node stays at h.  A cause is named only when the node's own
+// caches show it (anything else is "other" = a new violation):
+//   - the commitment of the genuine data of h+1 is in the data seen-set AND no data is cached at h+1: the genuine data really
+//     was (or will always be) dropped as "already seen".  Why it is in the seen-set without being cached:
+//     junk-p2p-data-replaced-cached-data: a junk data item for h+1 was delivered while the genuine data was cached there
+//     tx-list-repeats-an-earlier-block:  another block of the chain (applied, or its data delivered) carries the same tx list
+//   - header and data of h+1 are both cached after a restart on stale cache files (nothing triggered trySyncNextBlock)
 func (w *World) classifyStall(h uint64) string {
 	ctx := context.Background()
+	dcH := w.full.M.DataCache().VerifItemHeights()
+	hcH := w.full.M.HeaderCache().VerifItemHeights()
 	_, d, err := w.prod.Store.GetBlockData(ctx, h+1)
 	if err == nil && len(d.Txs) > 0 {
 		dc := d.DACommitment()
-		for k := w.opt.InitialHeight; k <= h; k++ {
-			if _, dk, err := w.prod.Store.GetBlockData(ctx, k); err == nil && len(dk.Txs) > 0 && bytes.Equal(dk.DACommitment(), dc) {
-				return "C02/stall/tx-list-repeats-an-earlier-block"
+		seen := false
+		for _, x := range w.full.M.DataCache().VerifSeen() {
+			if strings.EqualFold(x, dc.String()) {
+				seen = true
 			}
 		}
-		// or a later block whose data was delivered (and marked seen) first
-		for k := h + 2; k <= w.prod.Height(); k++ {
-			if _, dk, err := w.prod.Store.GetBlockData(ctx, k); err == nil && len(dk.Txs) > 0 && w.datDel[k] && bytes.Equal(dk.DACommitment(), dc) {
-				return "C02/stall/tx-list-repeats-an-earlier-block"
+		if seen && !hasHeight(dcH, h+1) {
+			if w.junkReplaced[h+1] {
+				return "C02/stall/junk-p2p-data-replaced-cached-data"
+			}
+			for k := w.opt.InitialHeight; k <= w.prod.Height(); k++ {
+				if k == h+1 {
+					continue
+				}
+				if _, dk, err := w.prod.Store.GetBlockData(ctx, k); err == nil && len(dk.Txs) > 0 && bytes.Equal(dk.DACommitment(), dc) && (k <= h || w.datDel[k]) {
+					return "C02/stall/tx-list-repeats-an-earlier-block"
+				}
 			}
 		}
+	}
+	if w.stale && hasHeight(hcH, h+1) && hasHeight(dcH, h+1) {
+		return "C02/stall/stale-cache-files"
 	}
 	st, errS := w.full.Store.GetState(ctx)
 	if errS == nil && st.LastBlockHeight != h {
